@@ -851,6 +851,8 @@ pub mod wire {
     pub struct ConnLog {
         /// statements prepared on this connection: (name, query, parameter type oids)
         pub parses: Vec<(String, String, Vec<u32>)>,
+        /// the parameter types the server resolved for each of them (same index)
+        pub resolved: Vec<Vec<u32>>,
         /// statement names bound
         pub binds: Vec<String>,
         /// simple queries received (identity probes excluded), with a global sequence number
@@ -999,7 +1001,31 @@ pub mod wire {
                         oids.push(u32::from_be_bytes([b[pos], b[pos + 1], b[pos + 2], b[pos + 3]]));
                         pos += 4;
                     }
-                    state.lock().unwrap().conns[idx].parses.push((name, query, oids));
+                    // like a real server: parameters the client left untyped are inferred
+                    // (`$k` placeholders beyond the given list, or given as 0) - here as int4
+                    let mut placeholders = 0usize;
+                    let qb = query.as_bytes();
+                    for (i, c) in qb.iter().enumerate() {
+                        if *c == b'$' {
+                            let digits: String = qb[i + 1..].iter().take_while(|d| d.is_ascii_digit()).map(|d| *d as char).collect();
+                            if let Ok(k) = digits.parse::<usize>() {
+                                placeholders = placeholders.max(k);
+                            }
+                        }
+                    }
+                    let given = oids.clone();
+                    while oids.len() < placeholders {
+                        oids.push(23);
+                    }
+                    for o in oids.iter_mut() {
+                        if *o == 0 {
+                            *o = 23;
+                        }
+                    }
+                    let mut st = state.lock().unwrap();
+                    st.conns[idx].parses.push((name, query, given));
+                    st.conns[idx].resolved.push(oids);
+                    drop(st);
                     out.extend(msg(b'1', b""));
                 }
                 b'D' => {
@@ -1009,7 +1035,8 @@ pub mod wire {
                     if kind == b'S' {
                         let oids = {
                             let st = state.lock().unwrap();
-                            st.conns[idx].parses.iter().rev().find(|p| p.0 == name).map(|p| p.2.clone()).unwrap_or_default()
+                            let c = &st.conns[idx];
+                            c.parses.iter().rposition(|p| p.0 == name).map(|k| c.resolved[k].clone()).unwrap_or_default()
                         };
                         let mut pd = Vec::new();
                         pd.extend_from_slice(&(oids.len() as u16).to_be_bytes());
